@@ -179,7 +179,9 @@ func check(c Case) (o ev.Outcome) {
 		return
 	}
 	if !obs.Clean() {
-		if len(r.Problems) == 0 {
+		if len(c.Wild) > 0 {
+			o.OutOfClaim = "set with invariant-only statements rejected (they need not be valid; the claim starts at a clean Process)"
+		} else if len(r.Problems) == 0 {
 			o.OutOfClaim = "valid-by-construction set rejected (judged by C06/C07/C09)"
 		} else {
 			o.OutOfClaim = "set with problems"
